@@ -85,7 +85,7 @@ VARIABLES
   unhealthy,  \* [Proc -> SUBSET Nat]  those of them whose State is not Healthy
   approvals,  \* [Proc -> SUBSET Nat]  juror.approvals
   resp,       \* [Pledge -> record]    the live responsible of the pledge
-  net,        \* set of juror requests in flight [p, r, to, k]
+  net,        \* set of juror requests in flight [p, a (attempt), r (round), to (juror key), k]
   attempts,   \* [Pledge -> Nat]       peers contacted so far
   admitted    \* [Pledge -> record]    what propose returned to the pledge
 vars == <<nodeKey, view, unhealthy, approvals, resp, net, attempts, admitted>>
@@ -101,7 +101,7 @@ Init ==
   /\ admitted = [p \in Pledge |-> NotAdmitted]
 
 Holders(k) == {x \in Proc : nodeKey[x] = k /\ k # 0}
-Msg(p, j) == [p |-> p, r |-> resp[p].round, to |-> j, k |-> resp[p].key]
+Msg(p, j) == [p |-> p, a |-> attempts[p], r |-> resp[p].round, to |-> j, k |-> resp[p].key]
 Pending(p) == resp[p].quorum \ (resp[p].ok \cup resp[p].bad)
 \* juror.verdict: nil iff not approved before and above every key the juror knows
 JurorOk(x, k) == k \notin approvals[x] /\ k > Max0(view[x])
@@ -123,7 +123,7 @@ Propose(p, q) ==
   /\ q \subseteq Healthy(m) /\ Cardinality(q) = QSize(view[m])
   /\ resp' = [resp EXCEPT ![p] = [@ EXCEPT !.key = NextKey(p), !.round = @ + 1, !.snap = view[m],
                                             !.quorum = q, !.ok = {}, !.bad = {}, !.st = "wait"]]
-  /\ net' = net \cup {[p |-> p, r |-> resp[p].round + 1, to |-> j, k |-> NextKey(p)] : j \in q}
+  /\ net' = net \cup {[p |-> p, a |-> attempts[p], r |-> resp[p].round + 1, to |-> j, k |-> NextKey(p)] : j \in q}
   /\ UNCHANGED <<nodeKey, view, unhealthy, approvals, attempts, admitted>>
 
 GiveUp(p) ==
@@ -135,23 +135,26 @@ GiveUp(p) ==
 \* the juror side of a request: approvals gains the key on every path that reaches the append
 Executed(x, k) == approvals' = [approvals EXCEPT ![x] = @ \cup {k}]
 
-Deliver(p, j) ==
+DeliverAt(p, j, x) ==
   /\ resp[p].st = "wait" /\ j \in Pending(p) /\ Msg(p, j) \in net
-  /\ \E x \in Holders(j) :
-       /\ Executed(x, resp[p].key)
-       /\ resp' = IF JurorOk(x, resp[p].key)
-                  THEN [resp EXCEPT ![p].ok = @ \cup {j}]
-                  ELSE [resp EXCEPT ![p].bad = @ \cup {j}]
+  /\ x \in Holders(j)
+  /\ Executed(x, resp[p].key)
+  /\ resp' = IF JurorOk(x, resp[p].key)
+             THEN [resp EXCEPT ![p].ok = @ \cup {j}]
+             ELSE [resp EXCEPT ![p].bad = @ \cup {j}]
   /\ net' = net \ {Msg(p, j)}
   /\ UNCHANGED <<nodeKey, view, unhealthy, attempts, admitted>>
+Deliver(p, j) == \E x \in Holders(j) : DeliverAt(p, j, x)
 
-DeliverLost(p, j) ==
+DeliverLostAt(p, j, x) ==
   /\ "lost" \in Faults
   /\ resp[p].st = "wait" /\ j \in Pending(p) /\ Msg(p, j) \in net
-  /\ \E x \in Holders(j) : Executed(x, resp[p].key)
+  /\ x \in Holders(j)
+  /\ Executed(x, resp[p].key)
   /\ resp' = [resp EXCEPT ![p].bad = @ \cup {j}]
   /\ net' = net \ {Msg(p, j)}
   /\ UNCHANGED <<nodeKey, view, unhealthy, attempts, admitted>>
+DeliverLost(p, j) == \E x \in Holders(j) : DeliverLostAt(p, j, x)
 
 Fail(p, j) ==
   /\ "fail" \in Faults
@@ -166,13 +169,16 @@ Timeout(p, j) ==
   /\ resp' = [resp EXCEPT ![p].bad = @ \cup {j}]
   /\ UNCHANGED <<nodeKey, view, unhealthy, approvals, net, attempts, admitted>>
 
-IsLate(msg) == ~(resp[msg.p].st = "wait" /\ resp[msg.p].round = msg.r /\ msg.to \in Pending(msg.p))
-DeliverLate(msg) ==
+IsLate(msg) == ~(resp[msg.p].st = "wait" /\ attempts[msg.p] = msg.a /\ resp[msg.p].round = msg.r
+                /\ msg.to \in Pending(msg.p))
+DeliverLateAt(msg, x) ==
   /\ "late" \in Faults
   /\ msg \in net /\ IsLate(msg)
-  /\ \E x \in Holders(msg.to) : Executed(x, msg.k)
+  /\ x \in Holders(msg.to)
+  /\ Executed(x, msg.k)
   /\ net' = net \ {msg}
   /\ UNCHANGED <<nodeKey, view, unhealthy, resp, attempts, admitted>>
+DeliverLate(msg) == \E x \in Holders(msg.to) : DeliverLateAt(msg, x)
 
 Retry(p) ==
   /\ resp[p].st = "wait" /\ Pending(p) = {} /\ resp[p].bad # {}
